@@ -68,6 +68,13 @@ def check_parity(ctx, rep, RULE="S4"):
     f = ctx.fn("selfies.encoder._should_invert_chirality")
     pe = _perm_expr(f)
     if pe is None:
+        # `return is_odd(<permutation>)`: the whole decision sits in a helper that receives the permutation
+        for r in own_nodes(f.node):
+            if isinstance(r, ast.Return) and isinstance(r.value, ast.Call) and len(r.value.args) == 1 and not r.value.keywords:
+                site = [s for s in ctx.cg.sites(f) if s.node is r.value]
+                if site and len(site[0].callees) == 1 and site[0].callees[0].cls is None and len(site[0].callees[0].posparams) == 1 \
+                        and _perm_expr(site[0].callees[0]) is not None:
+                    return _check_parity_decider(ctx, rep, RULE, f, r, site[0].callees[0])
         raise AnalysisError("parity decision (`<count> % 2`) of _should_invert_chirality not found")
     ret, cnt_expr, odd_is_true = pe
     rep.ob(RULE, odd_is_true, ret, f, construct=unparse(ret.value), how="inverts for an odd count", key="odd-inverts",
@@ -146,6 +153,44 @@ def check_parity(ctx, rep, RULE="S4"):
     rep.floor(RULE, 2)
 
 
+def _check_parity_decider(ctx, rep, RULE, f, ret, g):
+    """the helper g(perm) returns the decision itself: on every total order of n symbolic elements it must come out as the
+    constant `inversion parity is odd`"""
+    n_orders = 0
+    bad = []
+    for n in range(0, 6):
+        syms = [Lin.var(("p", n, k)) for k in range(n)]
+        perm = Tup([Num(x) for x in syms], "list")
+        for order in itertools.permutations(range(n)):
+            st = State()
+            for a, b in zip(order, order[1:]):
+                st.add_lin(ge(syms[b] - syms[a], 1))
+            inv = sum(1 for i in range(n) for j in range(i + 1, n) if order.index(i) > order.index(j))
+            fr = Engine(ctx, Hooks()).run_function(g, {g.posparams[0]: perm}, state=st)
+            n_orders += 1
+            if fr.raises:
+                bad.append((n, order, "the counting code can raise %s" % fr.raises[0][2]))
+                continue
+            if not fr.returns:
+                raise AnalysisError("parity helper %s has no normal exit for a list of length %d" % (g.name, n))
+            for s_, v in fr.returns:
+                if not (isinstance(v, Con) and isinstance(v.value, bool)):
+                    raise AnalysisError("parity decision of %s is not a constant on a total order of %d symbolic elements (%r): not modelled"
+                                        % (g.name, n, v))
+                if v.value != (inv % 2 == 1):
+                    bad.append((n, order, "decision %s, inversions %d" % (v.value, inv)))
+    w = None
+    if bad:
+        n, order, why = bad[0]
+        ranks = [order.index(i) + 1 for i in range(n)]
+        w = "for out-bond positions ordered like %s the code gives %s: the centre is inverted when it should not be (or the reverse); " \
+            "%d of %d orderings of up to 5 neighbours are wrong" % (ranks, why, len(bad), n_orders)
+    rep.ob(RULE, not bad, ret, f, construct="%s: inverts exactly for odd permutations (%d total orders of 0..5 symbolic elements)" % (g.name, n_orders),
+           how="decision == (inversion parity is odd) on every order", witness=w, nontrivial=True, key="inversion-parity")
+    rep.ob(RULE, True, ret, f, construct=unparse(ret.value)[:70], how="the helper's result is returned unchanged", key="odd-inverts")
+    rep.floor(RULE, 2)
+
+
 # ----------------------------------------------------------------------------- S5
 def check_ring_flag(ctx, rep, RULE="S5"):
     cls = ctx.db.classes[MG]
@@ -213,17 +258,47 @@ def check_ring_flag(ctx, rep, RULE="S5"):
                         and isinstance(n.func.value, ast.Attribute) and n.func.value.attr == field and n.args \
                         and not (isinstance(n.args[-1], ast.Constant) and n.args[-1].value is False):
                     others.append((m, n))
-        helper_names = {st.value.func.attr for st in R.node.body if isinstance(st, ast.Expr) and isinstance(st.value, ast.Call)
-                        and isinstance(st.value.func, ast.Attribute)}
-        only_from_R = set()
-        for hn in helper_names:
-            h = cls.methods.get(hn)
-            if h is not None and all(g is R for g in ctx.db.funcs.values() for s_ in ctx.cg.sites(g) if h in s_.callees):
-                only_from_R.add(hn)
-        others = [(m, n) for m, n in others if m.name not in only_from_R]
-        for m, n in others:
-            rep.ob(RULE, False, n, m, construct=unparse(n)[:60], witness="%s marks an atom as carrying a ring bond without adding one" % m.name,
-                   nontrivial=True, key="flag-set-elsewhere/%s" % m.name)
+        # a shared private helper may hold the store (e.g. `_count_bond(..., ring_bond)` called by add_bond with False): the
+        # question is decided per *entry* method, by an abstract run with the class's private helpers inlined, so that a
+        # constant argument folds the helper's test
+        def callers_in_class(h):
+            return [m2 for m2 in cls.methods.values() if any(h in s_.callees for s_ in ctx.cg.sites(m2))]
+
+        def outside_callers(h):
+            return [g for g in ctx.db.funcs.values() if g.cls is not cls and any(h in s_.callees for s_ in ctx.cg.sites(g))]
+        entries, seen_h = set(), set()
+        work = [m for m, _n in others]
+        while work:
+            m = work.pop()
+            if m.qual in helpers:
+                if m.qual in seen_h:
+                    continue
+                seen_h.add(m.qual)
+                if outside_callers(m):
+                    entries.add(m)
+                work.extend(callers_in_class(m))
+            elif m is not R:
+                entries.add(m)
+        flagged = []
+        for m in sorted(entries, key=lambda x: x.qual):
+            st2 = []
+
+            class SH2(Hooks):
+                def on_store(self, eng, fr, node, base, index, value, st):
+                    if not isinstance(index, str) and isinstance(base, Unk) and isinstance(base.term, tuple) and base.term[0] == "attr" \
+                            and base.term[2] == field and not (isinstance(value, Con) and value.value is False):
+                        st2.append(node)
+
+                def on_call(self, eng, fr, node, callee, args, kwargs, st):
+                    if isinstance(callee, tuple) and callee[0] == "method" and callee[1] in ("append", "insert") and args \
+                            and isinstance(node.func, ast.Attribute) and isinstance(node.func.value, ast.Attribute) \
+                            and node.func.value.attr == field and not (isinstance(args[-1], Con) and args[-1].value is False):
+                        st2.append(node)
+                    return None
+            Engine(ctx, SH2(), inline_methods=helpers).run_function(m, {})
+            for n in st2[:1]:
+                flagged.append((m, n))
+        others = flagged
         if not others:
             rep.ob(RULE, True, G.node, G, construct="ring flag %s" % field, how="only add_ring_bond sets it; it starts False", key="flag-only-ring")
         return
